@@ -308,5 +308,12 @@ def write_evidence(ctx, level, obligations, discharged, checker_cmd, trusted_bas
         cov.update(extra)
     ev = dict(property_id=ctx.prop, tier=ctx.tier, seed=ctx.seed, level=level, coverage=cov,
               assumptions=assumptions, wall_s=round(time.time() - ctx.t0, 2), violations=violations)
-    with open(os.path.join(VERIF, 'evidence', ctx.prop + '.json'), 'w') as f:
+    # evidence/ describes runs against /repo itself; runs against another tree (self-tests, seeded
+    # changes: AEGEAN_REPO=<scratch copy>) must not overwrite it
+    if os.path.realpath(repo_path()) != os.path.realpath('/repo'):
+        os.makedirs(os.path.join(VERIF, 'replays'), exist_ok=True)
+        target = os.path.join(VERIF, 'replays', f'evidence-{ctx.prop}-othertree.json')
+    else:
+        target = os.path.join(VERIF, 'evidence', ctx.prop + '.json')
+    with open(target, 'w') as f:
         json.dump(ev, f, indent=1, default=str)
